@@ -226,3 +226,90 @@ def noTopRefL : List Elem → Bool
 end
 
 end Pyham.Sax
+
+/-! ### the whole document: <species> sections and <groups> in the order of the file -/
+namespace Pyham.Sax
+
+/-- every call that changes the second-pass parser object: species / gene declarations and the calls of the groups section -/
+inductive DocEv where
+  | spStart (name : String)
+  | gene (g : GeneDecl)
+  | spEnd
+  | grp (e : Ev)
+deriving Repr, Inhabited
+
+structure DS where
+  cur : Option (String × Taxon) := none          -- current_species
+  genes : List GeneRec := []                     -- extant_gene_map, insertion log
+  species : List (String × Taxon) := []          -- every <species> element read so far with the leaf it resolved to
+  ms : MS := {}
+deriving Repr, Inhabited
+
+/-- a geneRef is resolved against the declarations READ SO FAR (later declaration of an id wins) -/
+def DS.env (T : STree) (nm : Naming) (d : DS) : Env :=
+  { T := T, nm := nm, geneTx := d.genes.reverse.map fun g => (g.id, g.tx) }
+
+def dstep (T : STree) (nm : Naming) (keep : String → Bool) (flt : HogFilter) (d : DS) : DocEv → Except Err DS
+  | .spStart name => do
+    let p ← resolveSpecies T nm name                                       -- _get_extant_genome_by_name
+    .ok { d with cur := some (name, p), species := d.species ++ [(name, p)] }
+  | .gene g =>
+    match d.cur with
+    | none => .error .unmodelled                                            -- a <gene> outside every <species>
+    | some (name, p) =>
+      if keep g.id then .ok { d with genes := d.genes ++ [({ id := g.id, species := name, tx := p, xrefs := g.xrefs } : GeneRec)] }
+      else .ok d
+  | .spEnd => .ok { d with cur := none }
+  | .grp e => do
+    let ms ← step (d.env T nm) flt d.ms e
+    .ok { d with ms := ms }
+
+def drun (T : STree) (nm : Naming) (keep : String → Bool) (flt : HogFilter) : List DocEv → DS → Except Err DS
+  | [], d => .ok d
+  | e :: es, d => do
+    let d ← dstep T nm keep flt d e
+    drun T nm keep flt es d
+
+def spEvents : List Species → List DocEv
+  | [] => []
+  | s :: ss => .spStart s.name :: (s.genes.map .gene ++ [.spEnd]) ++ spEvents ss
+
+/-- the states after every successful call, and how the run ended (what the harness compares in lock step) -/
+def dstates (T : STree) (nm : Naming) (keep : String → Bool) (flt : HogFilter) : List DocEv → DS → List DS × Option Err
+  | [], _ => ([], none)
+  | e :: es, d =>
+    match dstep T nm keep flt d e with
+    | .error err => ([], some err)
+    | .ok d' => let r := dstates T nm keep flt es d'; (d' :: r.1, r.2)
+
+/-- the analysis the parser object stands for when the document ends -/
+def DS.ham (T : STree) (nm : Naming) (d : DS) : Ham :=
+  { tree := T, naming := nm, tops := d.ms.tops.foldl (fun acc n => dictPut acc (hidOf n) n) [],
+    genes := d.genes, species := d.species, reg := d.ms.ps.reg }
+
+/-! ### the first pass over the whole document (the <gene> elements select gene ids as they are read) -/
+
+/-- what one <gene> element adds to `geneUniqueId` -/
+def geneSel (f : Filter) (g : GeneDecl) : List String :=
+  (if !f.intIds.isEmpty && f.intIds.contains g.id then [g.id] else []) ++
+  (if !f.extIds.isEmpty then ((g.id :: g.xrefs.map (·.2)).filter f.extIds.contains).map (fun _ => g.id) else [])
+
+def fdstep (f : Filter) (s : FS) : DocEv → Except Err FS
+  | .gene g => .ok { s with gids := s.gids ++ geneSel f g }
+  | .grp e => fstep f s e
+  | _ => .ok s
+
+def fdrun (f : Filter) : List DocEv → FS → Except Err FS
+  | [], s => .ok s
+  | e :: es, s => do
+    let s ← fdstep f s e
+    fdrun f es s
+
+def fdtrace (f : Filter) : List DocEv → FS → List (Nat × Nat × Nat × Nat × Bool) × Option Err
+  | [], _ => ([], none)
+  | e :: es, s =>
+    match fdstep f s e with
+    | .error err => ([], some err)
+    | .ok s' => let r := fdtrace f es s'; (s'.obs :: r.1, r.2)
+
+end Pyham.Sax
